@@ -103,8 +103,11 @@ def comprehension_only_names(src):
         if isinstance(node, (ast.ListComp, ast.SetComp, ast.DictComp, ast.GeneratorExp)):
             own = {n.id for g in node.generators for n in ast.walk(g.target) if isinstance(n, ast.Name)}
             comp_names |= own
+            # (the outermost iterable is evaluated by f itself, before the comprehension starts:
+            # a name it reads is f's, even when the comprehension variable has the same name)
+            first_iter = {id(n) for n in ast.walk(node.generators[0].iter)}
             for n in ast.walk(node):
-                if isinstance(n, ast.Name) and n.id in own:
+                if isinstance(n, ast.Name) and n.id in own and id(n) not in first_iter:
                     comp_ids.add(id(n))
     def own(node):
         # f's own scope: nested functions, lambdas and classes are other scopes
@@ -306,6 +309,13 @@ SHAPES = [
     "def f(w):\n    g = lambda: (y := w)\n    y = 0\n    return g() + y\n",
     "H = int\ndef f(w):\n    def inner(v: H) -> H:\n        return v\n    return inner(w)\n",
     "def factory():\n    cv = 5\n    def f(p=cv):\n        q = p + 1\n        return q\n    return f\nf = factory()\n",
+    # the outermost iterable of a comprehension is read by the function itself, whatever the
+    # comprehension's own variable is called
+    "x = [1, 2]\ndef f():\n    return [x for x in x]\n",
+    "x = [1, 2]\ndef f(w):\n    return {x: w for x in x}, {w for w in x}\n",
+    "x = [1, 2]\ndef f(w):\n    return list(x + w for x in x)\n",
+    "def f(rows):\n    flat = [c for row in rows for c in row if row]\n    return flat\n",
+    "x = [[1], [2]]\ndef f(w):\n    return [x for x in x for x in x]\n",
     "def deco(fn):\n    return fn\nK = 3\n@deco\ndef f(p=K):\n    café = p + 1\n    return café\n",
 ]
 
